@@ -273,4 +273,5 @@ def check(prog: Program, rep):
     from rules.c12 import bounds_materialised
     from rules.common import RuleProxy
     bounds_materialised(prog, RuleProxy(rep, "C16.R8"), "C12.R7")
-
+    from rules.values import coefficients_converted
+    coefficients_converted(prog, rep, "C16.R7", ["MinErrorFlow"])
